@@ -110,6 +110,11 @@ def gen(rng, tier):
         ('"P":[%s],"Q":[%s,%s]' % (m("q", "Q[]"), m("x", "bool"), m("x", "bool")), "P", '{"q":[{"x":true}]}'),
         ('"P":[%s],"Q":[%s,%s]' % (m("q", "Q[]"), m("x", "bool"), m("x", "bool")), "P", '{"q":[]}'),
         ('"P":[%s,%s]' % (m("a", "uint8"), m("a", "uint8")), "P", '{}'),
+        ('"P":[%s,%s]' % (m("a", "uint8"), m("a", "uint8")), "P", '{"a":1,"zz":2}'),
+        ('"P":[%s,%s,%s]' % (m("a", "uint8"), m("b", "bool"), m("a", "uint8")), "P", '{"a":1,"b":true,"zz":0}'),
+        ('"P":[%s,%s,%s]' % (m("a", "uint8"), m("a", "uint8"), m("a", "uint8")), "P", '{"a":1,"y":2,"z":3}'),
+        ('"P":[%s],"Q":[%s,%s]' % (m("q", "Q[]"), m("x", "bool"), m("x", "bool")), "P", '{"q":[{"x":true,"extra":1}]}'),
+        ('"P":[%s],"Q":[%s,%s]' % (m("q", "Q"), m("x", "bool"), m("x", "uint8")), "P", '{"q":{"x":true,"w":5}}'),
         ('"P":[%s]' % m("a", "uint8"), "P", '{"a":1,"a":2}'),
         ('"P":[%s]' % m("a", "uint8"), "P", '{"a":300,"a":2}'),
         ('"P":[%s]' % m("a", "uint8"), "P", '{"a":2,"a":300}'),
